@@ -44,6 +44,21 @@ CHECKS = {
     "C16": ("spec/MSCommon.tla ChooseMech + spec/MSSessionTrace.tla MechRight / ConnectTrue clauses on the observed trace for all ordered mechanism lists x preferences x verdicts; AUTHENTICATE payloads decoded per mechanism (RFC 4616, LOGIN, RFC 7628)",
             "the mechanism written equals ChooseMech(announced, preferred), nothing is written when none qualifies, the payload carries exactly the caller's credentials, connect is True iff the server said OK",
             "payload decoders trusted; DIGEST-MD5 exchange not decoded (open finding F10: the module crashes)", "4/C16"),
+    "C06": ("spec/FilterDefs.tla: token skeleton and extension set of every documented definition form; SkeletonValid and RequireExact model-checked against SieveGrammar; each definition built through the API with concrete values per value class, real output lexed independently and compared token by token with the skeleton, require list checked, real parser asked, observed tokens judged by TLC (SieveTrace)",
+            "for every definition of the space the generated script's tokens equal the skeleton (values only as string contents), the require names every used extension, parser and reference recogniser accept it strictly, also when the filter is disabled",
+            "value classes stand for all values of their kind; definitions with value starting with a quote excluded (property)", "4/C06"),
+    "C11": ("spec/FiltersSet.tla: Reload is the identity on the list state; every operation sequence with reload steps replayed (reload = real render/parse/from_parser_result) under four naming/marker configurations; projections and re-rendered text compared",
+            "names, order, enabled status, descriptions and requires equal before and after reload on every enumerated history; rendering the reloaded set is a fixed point",
+            "two fixed definitions; four naming configurations (plain, look-alike markers, custom prefixes, regex metacharacters)", "4/C11"),
+    "C12": ("spec/FiltersSet.tla reference list model, one action per operation with its return value; UniqueNames and StepProps model-checked; every operation sequence up to MaxOps (TLC) and simulated walks replayed step by step on a real FiltersSet",
+            "return value and projection (name, enabled, is_filter_disabled, number of if-false wrappers, definition, getfilter identity) equal the list model after every step of every enumerated sequence",
+            "bounds in evidence; projection trusted", "4/C12"),
+    "C13": ("spec/SieveProc.tla: process-global loaded-extension list and per-parser leftovers as explicit state; HistoryFree model-checked (and shown non-vacuous with each deviation enabled); every history replayed in a forked pristine child, each step compared with the pristine single call",
+            "for every enumerated history each call's full outcome equals its outcome in a pristine process",
+            "finite script pool and factory operations", "4/C13"),
+    "C19": ("spec/FilterDefs.tla definition space restricted to the quantifier's forms; read-back compared with the supplied definition on the original set, disabled, reloaded, and when given to updatefilter on a disabled renamed filter; open deviations predicted exactly (comma splitting, address conditions)",
+            "get_filter_conditions/actions/matchtype return the supplied definition in every stage, or exactly what a listed open deviation predicts",
+            "tuple shapes of the read-back API transcribed from docstrings/tests", "4/C19"),
 }
 
 NOT_YET = {}
